@@ -12,6 +12,11 @@ Streams
   C06.attach   real threads hammering Session.prepare_attachment under the line-level scheduler (pre-emption
                between any two source lines of session.py); the observed interleaving of atomic steps is replayed
                on the M14 acceptor (with the lock) and the handed-out numbers compared.
+  C06.store    histories of what a test does to ITS OWN files (write in place, append, truncate, replace, unlink, symlink,
+               relative spellings) interleaved with save_attachment_file / save_image_file / save_attachment_content /
+               prepare_attachment calls on a real Session, 1..3 threads in lock-step; oracle: every attachment holds, when
+               its event fires AND at the end of the history, the content its source had when it was attached; the
+               history is replayed on the file-store model M14c (AttachStore.step, copy mode).
 """
 import inspect
 import os
@@ -27,14 +32,17 @@ from props import _session
 from sched import linesched as LS
 
 PROPERTY = "C06"
-LEAN_MODULES = ["LccModel.Props.C06", "LccModel.Proto", "LccModel.ProtoReport"]   # the last two: what drivers/C06.lean imports besides the models
-PROPS_FILES = ["LccModel/Props/C06.lean"]
-NAMESPACES = {"LccModel/Props/C06.lean": "LccModel.C06"}
+LEAN_MODULES = ["LccModel.Props.C06", "LccModel.Props.C06Store", "LccModel.Proto", "LccModel.ProtoReport"]   # the last two: what drivers/C06.lean imports besides the models
+PROPS_FILES = ["LccModel/Props/C06.lean", "LccModel/Props/C06Store.lean"]
+NAMESPACES = {"LccModel/Props/C06.lean": "LccModel.C06", "LccModel/Props/C06Store.lean": "LccModel.C06Store"}
 DRIVER = "drivers/C06.lean"
 TRUSTED_BASE = [
     "Lean 4.33.0 kernel; axioms of the property theorems within {propext, Classical.choice, Quot.sound}",
     "hand-written models: Model/Session.lean (M3, session.py cursor protocol), Model/Writer.lean (M4, reporting/writer.py), "
-    "Model/Threads.lean namespace Attach (M14, the attachment counter under _attachment_lock)",
+    "Model/Threads.lean namespace Attach (M14, the attachment counter under _attachment_lock), Model/AttachStore.lean (M14c: directory "
+    "entries and i-nodes of the test's files and of the attachments directory; save_attachment_file copies)",
+    "POSIX file semantics as modelled in M14c: open(p, 'w'/'a') writes the i-node p resolves to (through a symlink too), os.replace "
+    "gives the path a new i-node, shutil.copy reads the source now and writes a new file",
     "correspondence harness harness/props/c06.py + harness/props/_session.py + harness/sched/linesched.py "
     "(real threads, real runner, turn controller, sys.settrace line scheduler)",
     "threading.local gives every thread its own cursor; ids of simultaneously live threads differ (CPython/OS, not modelled)",
@@ -46,7 +54,12 @@ ASSUMPTIONS = [
     "user code logs through the public API (lcc.log_*, check_that/log_check, log_url, save_attachment_*, set_step, lcc.Thread)",
     "a result (test, suite setup/teardown, session setup/teardown) is started once per run (no second TestStart for a path)",
 ]
-RULE = ("attachment operations include the ones that FAIL before (or after) the file is written — a raising `with prepare_attachment` / "
+RULE = ("C06.run / C06.store: the source of save_attachment_file / save_image_file is also a scratch file the emitter REUSES "
+        "(rewritten in place, appended to, truncated, replaced, deleted after it was attached; attached again with other contents), "
+        "spelled absolute or relative, or reached through a relative / absolute symlink; attachments are compared with the content at "
+        "attach time when the event fires and again at the END of the run.  "
+        "C06.store: a case counts if a source was modified in place after it had been attached.  "
+        "attachment operations include the ones that FAIL before (or after) the file is written — a raising `with prepare_attachment` / "
         "`prepare_image_attachment` body, handled by the test or not, nested in a block that completes, `save_attachment_file` / "
         "`save_image_file` on a missing source — in all three streams.  "
         "C06.run: a case counts if >= 2 emitters (tests or lcc.Threads) were live at once and their log calls interleave in "
@@ -55,7 +68,9 @@ RULE = ("attachment operations include the ones that FAIL before (or after) the 
 EXPLANATION = ("Theorems over all interleavings (LccModel.C06.*): cursor locality and event ownership (M3 invariant), every log "
                "lands in the emitting thread's own step at the event's location and nothing else changes (M3 composed with the "
                "writer M4), attachment numbers strictly increasing under the lock for any number of threads (M14) with the "
-               "lock-free refutation, file written before the event is fired; the attachment events of the stream are exactly the "
+               "lock-free refutation, file written before the event is fired; a stored attachment keeps the content its source had when it was "
+               "attached whatever the test does to its files afterwards (LccModel.C06Store: copy semantics over a model of i-nodes and "
+               "directory entries, with the refutation of the linking variant); the attachment events of the stream are exactly the "
                "blocks that were left normally (a block left by an exception fires nothing; every fired attachment was prepared by an "
                "attachBegin of the same thread; block numbers pairwise distinct). Tied to the code by three differential streams "
                "against real threads and the real runner, incl. line-level pre-emption inside session.py / writer.py.")
@@ -249,6 +264,38 @@ class Emitter:
             fh.write(p)
         return path
 
+    def _scratch(self, image=False):
+        """the emitter's own scratch / capture file, REUSED for every capture (rewritten in place)"""
+        return os.path.join(self.run.srcdir, "scratch-%s.%s" % (re.sub(r"[^A-Za-z0-9]", "_", self.eid), "png" if image else "txt"))
+
+    def _spell(self, src, via):
+        """how the test names its file: absolute, relative to the working directory, through a symbolic link"""
+        if via == "rel":
+            return os.path.relpath(src)
+        if via in ("symlink-rel", "symlink-abs"):
+            link = os.path.join(self.run.srcdir, "lnk-%s-%d.txt" % (re.sub(r"[^A-Za-z0-9]", "_", self.eid), self.seq))
+            os.symlink(os.path.basename(src) if via == "symlink-rel" else src, link)
+            return link
+        return src
+
+    @staticmethod
+    def _after(src, how, p):
+        """what the test does to its file once it is attached (it is the test's file, not the report's)"""
+        if how == "overwrite":
+            with open(src, "w") as fh:
+                fh.write("later content, written after " + p)
+        elif how == "append":
+            with open(src, "a") as fh:
+                fh.write("\n+ appended after the capture")
+        elif how == "truncate":
+            open(src, "w").close()
+        elif how == "replace":
+            with open(src + ".new", "w") as fh:
+                fh.write("replacement of " + p)
+            os.replace(src + ".new", src)
+        elif how == "unlink":
+            os.unlink(src)
+
     def _rec(self, p, kind, **extra):
         self.log.append(dict({"payload": p, "kind": kind, "ident": threading.get_ident()}, **extra))
 
@@ -276,6 +323,15 @@ class Emitter:
             elif a[1] in ("file", "image-file"):
                 src = self._source(p)
                 (lcc.save_attachment_file if a[1] == "file" else lcc.save_image_file)(src, p)
+            elif a[1] in ("file-reuse", "image-file-reuse"):
+                # the same scratch file for every capture of this emitter: rewritten in place, attached, and then
+                # possibly modified again before the next capture
+                opt = a[2] if len(a) > 2 else {}
+                src = self._scratch(a[1] == "image-file-reuse")
+                with open(src, "w") as fh:
+                    fh.write(p)
+                (lcc.save_attachment_file if a[1] == "file-reuse" else lcc.save_image_file)(self._spell(src, opt.get("via")), p)
+                self._after(src, opt.get("after"), p)
             elif a[1] == "nested":
                 # a block left by an exception (handled right there) inside a block that completes
                 inner = self._next("abort")
@@ -363,12 +419,28 @@ def _S():
     return S
 
 
-_ATT_MODES = ["content", "prepare", "content", "prepare", "file", "image-file", "prepare-image", "image-content", "nested"]
+def _read_text(path):
+    """content of a file, None when there is no readable regular file behind the name (missing, dangling link)"""
+    try:
+        with open(path, "rb") as fh:
+            return fh.read().decode("utf-8", "replace")
+    except (IOError, OSError):
+        return None
+
+
+_ATT_MODES = ["content", "prepare", "content", "prepare", "file", "image-file", "prepare-image", "image-content", "nested",
+              "file-reuse", "file-reuse", "image-file-reuse"]
+_AFTER = [None, None, "overwrite", "append", "truncate", "replace", "unlink"]
+_VIA = [None, None, None, "rel", "symlink-rel", "symlink-abs"]
 _ABORT_HOWS = ["prepare", "prepare", "prepare-image", "file-missing", "file-missing", "image-file-missing", "prepare-late"]
 
 
 def gen_att(rng):
-    return ["att", rng.choice(_ATT_MODES)]
+    mode = rng.choice(_ATT_MODES)
+    if mode.endswith("-reuse"):
+        # the emitter's one scratch file, rewritten in place for this capture; what happens to it afterwards; its spelling
+        return ["att", mode, {"after": rng.choice(_AFTER), "via": rng.choice(_VIA)}]
+    return ["att", mode]
 
 
 def gen_abort(rng):
@@ -477,11 +549,15 @@ def real_run(case):
     from lemoncheesecake.suite.core import Suite, Test
 
     fired = []
+    at_fire = {}              # attachment path -> content of the file at the moment its event was fired (None: not readable)
     flock = threading.Lock()
+    tmp = tempfile.mkdtemp(prefix="lccverif-c06-")
 
     class RecEM(E.AsyncEventManager):
         def fire(self, event):
             with flock:
+                if type(event).__name__ == "LogAttachmentEvent":
+                    at_fire[event.attachment_path] = _read_text(os.path.join(tmp, event.attachment_path))
                 fired.append((R.canon_event(event), threading.get_ident()))
                 E.AsyncEventManager.fire(self, event)
 
@@ -518,7 +594,6 @@ def real_run(case):
         suites.append(suite)
     resolve_tests_dependencies(suites, suites)
 
-    tmp = tempfile.mkdtemp(prefix="lccverif-c06-")
     old_inst = S.Session._instance
     sched = None
     linfo = None
@@ -556,8 +631,9 @@ def real_run(case):
         files = {}
         if os.path.isdir(adir):
             for name in sorted(os.listdir(adir)):
-                with open(os.path.join(adir, name), "rb") as fh:
-                    files["attachments/" + name] = fh.read().decode("utf-8", "replace")
+                content = _read_text(os.path.join(adir, name))
+                if content is not None:         # a directory entry that cannot be read (dangling link) is no file
+                    files["attachments/" + name] = content
         with flock:
             snapshot = list(fired)
         # thread idents renamed by first appearance in the fired stream
@@ -570,7 +646,7 @@ def real_run(case):
                 ev["tid"] = ren.setdefault(ev["tid"], len(ren) + 1)
             events.append(ev)
         emitted = {eid: [dict(x, ident=ren.get(x["ident"], 0)) for x in lst] for eid, lst in run.emitted.items()}
-        return {"report": report, "files": files, "fired": events, "emitted": emitted, "errors": run.errors,
+        return {"report": report, "files": files, "at_fire": dict(at_fire), "fired": events, "emitted": emitted, "errors": run.errors,
                 "raised": outcome["raised"], "gate_timeouts": turns.timeouts, "max_live": turns.max_live, "line": linfo}
     finally:
         if sched is not None and sched.enabled:
@@ -710,11 +786,18 @@ def oracle_run(case, obs):
             for e in st["entries"]:
                 if e["k"] == "att":
                     names.append(e["file"])
-                    content = obs["files"].get(e["file"])
+                    content = obs["files"].get(e["file"])       # at the END of the run
                     if content is None:
                         fails.append(F("C06/attachment-file-missing", f"{e['file']} referenced by {e['desc']} does not exist"))
                     elif content != e["desc"]:
-                        fails.append(F("C06/attachment-content", f"{e['file']} holds {content[:80]!r}, written was {e['desc'][:80]!r}"))
+                        if (obs.get("at_fire") or {}).get(e["file"]) == e["desc"]:
+                            # it held the attached content when the event was fired; what the test did to ITS file
+                            # afterwards reached the report's file
+                            fails.append(F("C06/attachment-changed-after-attach",
+                                           f"{e['file']} held the attached content {e['desc'][:80]!r} when its event was fired, at the "
+                                           f"end of the run it holds {content[:80]!r}"))
+                        else:
+                            fails.append(F("C06/attachment-content", f"{e['file']} holds {content[:80]!r}, written was {e['desc'][:80]!r}"))
     if len(names) != len(set(names)):
         dup = sorted({n for n in names if names.count(n) > 1})
         fails.append(F("C06/attachment-name-duplicate", f"attachment names used more than once: {dup}"))
@@ -722,6 +805,8 @@ def oracle_run(case, obs):
     for ev in obs["fired"]:
         if ev["e"] == "att" and obs["files"].get(ev["file"]) is None:
             fails.append(F("C06/attachment-file-missing", f"{ev['file']} referenced by the fired event of {ev['desc']} does not exist"))
+        elif ev["e"] == "att" and "at_fire" in obs and obs["at_fire"].get(ev["file"]) is None:
+            fails.append(F("C06/attachment-file-missing", f"{ev['file']} did not exist (as a readable file) when the event of {ev['desc']} was fired"))
     # 5. session side: a fired step-level event carries the emitting thread's id and its own location
     for ev in obs["fired"]:
         if ev.get("ident_matches") is False:
@@ -810,6 +895,26 @@ class RunStream(C.Stream):
         {"n": 2, "line": None, "sched": {"strategy": "fifo", "width": 1, "seed": 5},
          "suites": [{"name": "s0", "setup": None, "teardown": None, "tests": [
              {"name": "t0", "main": [["abort", "file-missing", True]], "threads": []}]}]},
+        # one scratch file per emitter, reused for every capture (rewritten in place, attached, modified afterwards), two tests
+        # and a lcc.Thread at once; spelled absolute, relative, through symbolic links
+        {"n": 2, "line": None, "sched": {"strategy": "rr", "width": 1, "seed": 6},
+         "suites": [{"name": "s0", "setup": None, "teardown": None, "tests": [
+             {"name": "t%d" % i,
+              "main": [["att", "file-reuse", {"after": None, "via": None}], ["spawn", 0], ["att", "file-reuse", {"after": "append", "via": "rel"}],
+                       ["att", "image-file-reuse", {"after": "truncate", "via": "symlink-rel"}], ["step"],
+                       ["att", "file-reuse", {"after": "replace", "via": "symlink-abs"}], ["join", 0],
+                       ["att", "file-reuse", {"after": "unlink", "via": None}], ["att", "image-file-reuse", {"after": "overwrite", "via": None}]],
+              "threads": [[["att", "file-reuse", {"after": None, "via": None}], ["att", "file-reuse", {"after": "overwrite", "via": None}],
+                           ["att", "file-reuse", {"after": None, "via": "rel"}]]]}
+             for i in range(2)]}]},
+        # minimised failing inputs of the seeded change C06-4 (save_attachment_file hard-links the source into the report)
+        {"n": 2, "line": None, "sched": {"strategy": "fifo", "width": 1, "seed": 7},
+         "suites": [{"name": "s0", "setup": None, "teardown": None, "tests": [
+             {"name": "t0", "main": [["att", "file-reuse", {"after": None, "via": None}], ["att", "file-reuse", {"after": None, "via": None}]],
+              "threads": []}]}]},
+        {"n": 4, "line": None, "sched": {"strategy": "random", "width": 2, "seed": 507504216},
+         "suites": [{"name": "s0", "setup": None, "teardown": None, "tests": [
+             {"name": "t5", "main": [["att", "file-reuse", {"after": "append", "via": "symlink-rel"}]], "threads": []}]}]},
     ]
 
     def __init__(self, ctx):
@@ -888,6 +993,11 @@ class RunStream(C.Stream):
                 for a in t["main"] + [b for ch in t["threads"] for b in ch]:
                     if a[0] == "att" and a[1] not in ("content", "prepare"):
                         f.append("att:" + a[1])
+                        if len(a) > 2:
+                            if a[2].get("after"):
+                                f.append("source-after-attach:" + a[2]["after"])
+                            if a[2].get("via"):
+                                f.append("source-spelled:" + a[2]["via"])
                     elif a[0] == "abort":
                         f.append("abort:" + a[1])
         f = sorted(set(f))
@@ -1196,6 +1306,395 @@ class AttachStream(C.Stream):
                         yield c
 
 
+# ------------------------------------------------------------------------------------------------
+# C06.store — what the attachments hold at the END: histories of file operations and attachment calls vs. M14c
+# ------------------------------------------------------------------------------------------------
+
+_REG_PATHS = [0, 1, 2, 3]        # regular files of the test: f0.txt …
+_LINK_PATHS = [4, 5]             # names only ever used for symbolic links (one level, as in the model)
+_SAVE_KINDS = ["file", "image"]
+_CONTENT_KINDS = ["content", "image-content", "prepare", "prepare-image"]
+
+
+def _tok_text(toks):
+    return "".join("<%d>;" % t for t in toks)
+
+
+def _tok_parse(text):
+    """content of a file back into chunk tokens; anything else is kept as a string (never equal to a token list)"""
+    if text is None:
+        return None
+    parts = text.split(";")
+    if parts[-1] != "":
+        return "?" + text[:60]
+    out = []
+    for part in parts[:-1]:
+        if not (part.startswith("<") and part.endswith(">") and part[1:-1].isdigit()):
+            return "?" + text[:60]
+        out.append(int(part[1:-1]))
+    return out
+
+
+def gen_store_case(rng):
+    threads = rng.choice([1, 1, 2, 3])
+    ops, tok = [], [0]
+    exists, links = set(), {}
+
+    def fresh():
+        tok[0] += 1
+        return tok[0]
+    saved = []          # paths that were attached (favoured by the later operations: that is the point)
+    for _ in range(rng.randint(3, 14)):
+        t = rng.randint(1, threads)
+        r = rng.random()
+        pool = _REG_PATHS + [p for p in _LINK_PATHS if p in links]
+        if saved and rng.random() < 0.6:
+            pool = [p for p in pool if p in saved or links.get(p) in saved] or pool
+        p = rng.choice(pool)
+        if r < 0.30:
+            cand = [q for q in pool if q in exists or links.get(q) in exists] or [p]
+            q = rng.choice(cand) if rng.random() < 0.85 else p          # mostly existing sources, sometimes a missing one
+            ops.append([t, "save", q, rng.choice(_SAVE_KINDS), rng.choice(["abs", "abs", "rel"])])
+            saved.append(q)
+        elif r < 0.40:
+            ops.append([t, "content", [fresh()], rng.choice(_CONTENT_KINDS)])
+        elif r < 0.62:
+            ops.append([t, "write", p, [fresh()]])
+            exists.add(links.get(p, p))
+        elif r < 0.74:
+            ops.append([t, "append", p, [fresh()]])
+            exists.add(links.get(p, p))
+        elif r < 0.80:
+            ops.append([t, "write", p, []])                 # truncate
+            exists.add(links.get(p, p))
+        elif r < 0.87:
+            q = rng.choice(_REG_PATHS)
+            ops.append([t, "replace", q, [fresh()]])
+            exists.add(q)
+        elif r < 0.92:
+            ops.append([t, "unlink", p])
+            if p in links:
+                del links[p]
+            else:
+                exists.discard(p)
+        else:
+            free = [q for q in _LINK_PATHS if q not in links]
+            if free:
+                lp, target = rng.choice(free), rng.choice(_REG_PATHS)
+                ops.append([t, "symlink", lp, target, rng.choice(["rel", "abs"])])
+                links[lp] = target
+    return {"threads": threads, "ops": ops}
+
+
+def real_store(case):
+    """the history on a real Session: the operations are executed ONE AT A TIME, in the listed order, each by its thread"""
+    import queue
+    import lemoncheesecake.api as lcc
+    import lemoncheesecake.events as E
+    import lemoncheesecake.session as S
+    from lemoncheesecake.reporting import Report
+    from lemoncheesecake.testtree import BaseTest
+
+    root = tempfile.mkdtemp(prefix="lccverif-c06s-")     # report directory and the test's files: same file system
+    report_dir, work = os.path.join(root, "report"), os.path.join(root, "work")
+    os.mkdir(report_dir)
+    os.mkdir(work)
+    old_inst = S.Session._instance
+    fired = []          # (attachment path, content at the moment of the event)
+
+    class RecEM(E.EventManager):
+        def fire(self, event):
+            if type(event).__name__ == "LogAttachmentEvent":
+                fired.append((event.attachment_path, _read_text(os.path.join(report_dir, event.attachment_path))))
+
+    def path_of(p):
+        return os.path.join(work, ("f%d.txt" if p in _REG_PATHS else "l%d.txt") % p)
+
+    calls, outcomes = [], []
+    n_att = [0]
+
+    def do(op):
+        """-> outcome of one operation: "done" | "missing" | "skipped" (outside the model's calls) | "raised:<class>" """
+        k = op[1]
+        if k in ("write", "append"):
+            with open(path_of(op[2]), "w" if k == "write" else "a") as fh:
+                fh.write(_tok_text(op[3]))
+            return "done"
+        if k == "replace":
+            with open(path_of(op[2]) + ".new", "w") as fh:
+                fh.write(_tok_text(op[3]))
+            os.replace(path_of(op[2]) + ".new", path_of(op[2]))
+            return "done"
+        if k == "unlink":
+            try:
+                os.unlink(path_of(op[2]))
+            except FileNotFoundError:
+                return "missing"
+            return "done"
+        if k == "symlink":
+            lp, target = path_of(op[2]), path_of(op[3])
+            if os.path.lexists(lp) or os.path.islink(target) or op[2] == op[3]:
+                return "skipped"
+            os.symlink(os.path.basename(target) if op[4] == "rel" else target, lp)
+            return "done"
+        # the two attachment calls
+        n_att[0] += 1
+        before = len(fired)
+        call = {"n": n_att[0], "op": k}
+        try:
+            if k == "save":
+                src = path_of(op[2])
+                call["expected"] = _tok_parse(_read_text(src))      # what the source holds NOW
+                arg = os.path.relpath(src) if op[4] == "rel" else src
+                (lcc.save_attachment_file if op[3] == "file" else lcc.save_image_file)(arg, "attachment %d" % n_att[0])
+            else:
+                call["expected"] = list(op[2])
+                text = _tok_text(op[2])
+                if op[3] == "content":
+                    lcc.save_attachment_content(text, "c.txt", "attachment %d" % n_att[0])
+                elif op[3] == "image-content":
+                    lcc.save_image_content(text, "c.png", "attachment %d" % n_att[0])
+                else:
+                    with (lcc.prepare_attachment if op[3] == "prepare" else lcc.prepare_image_attachment)("c.txt", "attachment %d" % n_att[0]) as path:
+                        with open(path, "w") as fh:
+                            fh.write(text)
+            call["outcome"] = "done"
+        except (IOError, OSError) as e:
+            call["outcome"] = "missing" if isinstance(e, FileNotFoundError) else "raised:" + type(e).__name__
+        new = fired[before:]
+        call["events"] = len(new)
+        if new:
+            call["path"], call["at_fire"] = new[0][0], _tok_parse(new[0][1])
+            call["at_fire_missing"] = new[0][1] is None
+        calls.append(call)
+        return call["outcome"]
+
+    try:
+        session = S.Session(RecEM.load(), report_dir, Report())
+        S.Session._instance = session
+        inbox = {t: queue.Queue() for t in range(1, case["threads"] + 1)}
+        done = queue.Queue()
+
+        def worker(t):
+            node = R._node_chain(["s", "t%d" % t], _session.md_of("t%d" % t, t), BaseTest)
+            session.start_test(node)
+            session.set_step("step")
+            while True:
+                op = inbox[t].get()
+                if op is None:
+                    return
+                try:
+                    done.put(do(op))
+                except BaseException as e:  # noqa — classified
+                    done.put("raised:" + type(e).__name__)
+
+        ths = [threading.Thread(target=worker, args=(t,), name="lccverif-store%d" % t, daemon=True) for t in inbox]
+        for th in ths:
+            th.start()
+        for op in case["ops"]:
+            inbox[op[0]].put(op)
+            try:
+                outcomes.append(done.get(timeout=30))
+            except queue.Empty:
+                raise C.InfraError("C06.store: an operation did not return within 30 s")
+        for q in inbox.values():
+            q.put(None)
+        for th in ths:
+            th.join(10)
+        # the END of the history: what every attachment and every source path holds now
+        for call in calls:
+            if call.get("path"):
+                full = os.path.join(report_dir, call["path"])
+                call["final"] = _tok_parse(_read_text(full))
+                call["final_missing"] = _read_text(full) is None
+                call["entry_is_link"] = os.path.islink(full)
+        src = {str(p): _tok_parse(_read_text(path_of(p))) for p in _REG_PATHS + _LINK_PATHS}
+        listing = sorted(os.listdir(os.path.join(report_dir, "attachments"))) if os.path.isdir(os.path.join(report_dir, "attachments")) else []
+        return {"outcomes": outcomes, "calls": calls, "src": src, "listing": listing}
+    finally:
+        S.Session._instance = old_inst
+        shutil.rmtree(root, ignore_errors=True)
+
+
+def _store_modified_after_attach(case):
+    """was a source modified IN PLACE after it had been attached? (path ids; a link counts for its target)"""
+    links, attached = {}, set()
+    for op in case["ops"]:
+        k = op[1]
+        if k == "symlink":
+            links[op[2]] = op[3]
+        elif k == "save":
+            attached.add(links.get(op[2], op[2]))
+        elif k in ("write", "append") and links.get(op[2], op[2]) in attached:
+            return True
+        elif k == "unlink":
+            links.pop(op[2], None)
+    return False
+
+
+class StoreStream(C.Stream):
+    name = "C06.store"
+    quick_cases = 250
+    thorough_cases = 4000
+    quick_seconds = 10
+    thorough_seconds = 120
+    chunk = 50
+    corpus = [
+        # one scratch file attached three times with different contents (rewritten in place in between), then appended to
+        {"threads": 1, "ops": [[1, "write", 0, [1]], [1, "save", 0, "file", "abs"], [1, "write", 0, [2]], [1, "save", 0, "file", "abs"],
+                               [1, "write", 0, [3]], [1, "save", 0, "image", "rel"], [1, "append", 0, [4]]]},
+        # two threads sharing a log file that grows; truncation; replacement; deletion after the attach
+        {"threads": 2, "ops": [[1, "write", 1, [1]], [2, "append", 1, [2]], [1, "save", 1, "file", "abs"], [2, "append", 1, [3]],
+                               [2, "save", 1, "file", "rel"], [1, "write", 1, []], [2, "save", 1, "image", "abs"], [1, "replace", 1, [4]],
+                               [1, "save", 1, "file", "abs"], [2, "unlink", 1], [1, "save", 1, "file", "abs"]]},
+        # sources reached through a relative / an absolute symbolic link, written through the link afterwards
+        {"threads": 1, "ops": [[1, "write", 2, [1]], [1, "symlink", 4, 2, "rel"], [1, "symlink", 5, 2, "abs"], [1, "save", 4, "file", "abs"],
+                               [1, "save", 5, "image", "abs"], [1, "write", 4, [2]], [1, "save", 4, "file", "rel"], [1, "append", 5, [3]],
+                               [1, "content", [7], "prepare"], [1, "unlink", 4], [1, "save", 4, "file", "abs"]]},
+        # minimised failing inputs of the seeded change C06-4 (the source hard-linked into the report)
+        {"threads": 1, "ops": [[1, "write", 0, [1]], [1, "save", 0, "file", "abs"], [1, "write", 0, [2]]]},
+        {"threads": 1, "ops": [[1, "write", 0, [1]], [1, "symlink", 4, 0, "rel"], [1, "save", 4, "file", "abs"]]},
+    ]
+
+    def gen(self, rng, i):
+        return gen_store_case(rng)
+
+    def impl(self, case):
+        return real_store(case)
+
+    def oracle(self, case, obs):
+        F = C.Failure
+        fails = []
+        paths = [c["path"] for c in obs["calls"] if c.get("path")]
+        if len(paths) != len(set(paths)):
+            fails.append(F("C06/attachment-name-duplicate", f"attachment names used more than once: {sorted(p for p in set(paths) if paths.count(p) > 1)}"))
+        for c in obs["calls"]:
+            what = f"attachment call #{c['n']} ({c['op']})"
+            if c["outcome"] != "done":
+                if c["events"]:
+                    fails.append(F("C06/aborted-attachment-recorded", f"{what} raised ({c['outcome']}) but a LogAttachmentEvent references {c.get('path')}"))
+                continue
+            if c["events"] != 1:
+                fails.append(F("C06/attachment-event-count", f"{what} returned and fired {c['events']} attachment events"))
+                continue
+            exp = c["expected"]
+            if c.get("at_fire_missing"):
+                fails.append(F("C06/attachment-file-missing", f"{what}: {c['path']} is not a readable file when its event is fired"
+                                                              + (" (the directory entry is a symbolic link)" if c.get("entry_is_link") else "")))
+            elif c["at_fire"] != exp:
+                fails.append(F("C06/attachment-content", f"{what}: {c['path']} holds {c['at_fire']} when its event is fired, attached was {exp}"))
+            elif c.get("final_missing"):
+                fails.append(F("C06/attachment-file-missing", f"{what}: {c['path']} does not exist at the end of the history"))
+            elif c["final"] != exp:
+                fails.append(F("C06/attachment-changed-after-attach",
+                               f"{what}: {c['path']} held the attached content {exp} when its event was fired; after the test went on "
+                               f"using its own file it holds {c['final']}"))
+        seen, out = set(), []
+        for f in fails:
+            if f.signature not in seen:
+                seen.add(f.signature)
+                out.append(f)
+        return out
+
+    # ---- the model: M14c in copy mode ----------------------------------------------------------------------
+    def _model_ops(self, case, obs):
+        ops, n, idx = [], 0, []
+        for i, (op, out) in enumerate(zip(case["ops"], obs["outcomes"])):
+            k = op[1]
+            if k in ("save", "content"):
+                n += 1
+            if out == "skipped":
+                continue
+            idx.append(i)
+            if k in ("write", "append", "replace"):
+                ops.append([k, op[2], op[3]])
+            elif k == "unlink":
+                ops.append(["unlink", op[2]])
+            elif k == "symlink":
+                ops.append(["symlink", op[2], op[3]])
+            elif k == "save":
+                ops.append(["save", n, op[2]])
+            else:
+                ops.append(["content", n, op[2]])
+        return ops, idx, n
+
+    def request(self, case, obs):
+        ops, _, n = self._model_ops(case, obs)
+        return {"store": {"mode": "copy", "ops": ops, "numbers": list(range(1, n + 1)), "paths": _REG_PATHS + _LINK_PATHS}}
+
+    def compare(self, case, obs, ans):
+        if "error" in ans and "ok" not in ans:
+            return "model error: " + str(ans["error"])
+        ops, idx, n = self._model_ops(case, obs)
+        if not ans["ok"]:
+            return f"M14c does not cover call {ans['accepted']} of the history: {ops[ans['accepted']] if ans['accepted'] < len(ops) else None}"
+        real_out = [obs["outcomes"][i] for i in idx]
+        if ans["outcomes"] != real_out:
+            return f"outcomes differ: model {ans['outcomes']} real {real_out}"
+        real_att = {c["n"]: (c.get("final") if c["outcome"] == "done" else None) for c in obs["calls"]}
+        model_att = {k: v for k, v in ans["att"]}
+        for k in range(1, n + 1):
+            if model_att.get(k) != real_att.get(k):
+                return f"final content of attachment #{k}: model {model_att.get(k)} real {real_att.get(k)}"
+        for c in obs["calls"]:
+            if c["outcome"] == "done" and c.get("path") and int(os.path.basename(c["path"]).split("_")[0]) != c["n"]:
+                return f"attachment call #{c['n']} was handed the name {c['path']}"
+        model_src = {str(k): v for k, v in ans["src"]}
+        if model_src != obs["src"]:
+            return f"final content of the test's own files: model {model_src} real {obs['src']}"
+        return None
+
+    def nontrivial(self, case, obs):
+        return _store_modified_after_attach(case) and any(c["outcome"] == "done" for c in obs["calls"])
+
+    def features(self, case, obs):
+        f = ["threads=%d" % case["threads"]]
+        links, attached, count = {}, {}, {}
+        for op, out in zip(case["ops"], obs["outcomes"]):
+            k = op[1]
+            tgt = links.get(op[2], op[2]) if k in ("save", "write", "append", "replace", "unlink") else None
+            if k == "symlink" and out == "done":
+                links[op[2]] = op[3]
+                f.append("symlink-" + op[4])
+            elif k == "save":
+                f.append("save-" + out.split(":")[0])
+                if out == "done":
+                    if op[2] in links:
+                        f.append("source-through-symlink")
+                    if op[4] == "rel":
+                        f.append("source-spelled-relative")
+                    count[tgt] = count.get(tgt, 0) + 1
+                    if count[tgt] >= 2:
+                        f.append("same-source-attached-again")
+                    attached[tgt] = True
+            elif k == "content":
+                f.append("content:" + op[3])
+            elif k in ("write", "append") and attached.get(tgt):
+                f.append("source-%s-in-place-after-attach" % ("truncated" if (k == "write" and not op[3]) else "rewritten" if k == "write" else "appended"))
+                if op[2] in links:
+                    f.append("source-modified-through-symlink-after-attach")
+            elif k == "replace" and attached.get(tgt):
+                f.append("source-replaced-after-attach")
+            elif k == "unlink" and out == "done":
+                if op[2] in links:
+                    del links[op[2]]
+                elif attached.get(tgt):
+                    f.append("source-deleted-after-attach")
+        if case["threads"] >= 2 and len({op[0] for op in case["ops"] if op[1] in ("save", "write", "append")}) >= 2:
+            f.append("several-threads-on-the-files")
+        return sorted(set(f))
+
+    def shrink(self, case):
+        ops = case["ops"]
+        for i in range(len(ops)):
+            yield {"threads": case["threads"], "ops": ops[:i] + ops[i + 1:]}
+        if case["threads"] > 1:
+            yield {"threads": 1, "ops": [[1] + op[1:] for op in ops]}
+        for i, op in enumerate(ops):
+            if op[1] == "save" and op[4] == "rel":
+                yield {"threads": case["threads"], "ops": ops[:i] + [op[:4] + ["abs"]] + ops[i + 1:]}
+
+
 class SessStream(_session.SessionStream):
     name = "sess"
     quick_cases = 150
@@ -1210,4 +1709,4 @@ class SessStream(_session.SessionStream):
 
 
 def streams(ctx):
-    return [SessStream(), RunStream(ctx), AttachStream()]
+    return [SessStream(), RunStream(ctx), AttachStream(), StoreStream()]
